@@ -7,19 +7,51 @@ use crate::la::*;
 
 verus! {
 
-pub broadcast group group_prelude { axiom_dm_wf, axiom_mv_wf, axiom_eps_pos }
+pub broadcast group group_prelude { axiom_dm_wf, axiom_mv_wf, axiom_eps_pos, axiom_sc_consts }
 
 // =============================================================================== scalars
 /// abstract real scalar (stands for f32 and f64 alike); floats are treated as mathematical reals.
-#[verifier::external_body]
-pub struct Sc { _p: core::marker::PhantomData<u8> }
-impl View for Sc { type V = real; uninterp spec fn view(&self) -> real; }
+/// `b` is an opaque token for the bit pattern; value and finiteness are uninterpreted functions of it.
+pub struct Sc { pub b: u64 }
+pub uninterp spec fn sc_val(b: u64) -> real;
+/// IEEE finiteness; established only by an explicit run-time test
+pub uninterp spec fn sc_fin(b: u64) -> bool;
+impl View for Sc { type V = real; open spec fn view(&self) -> real { sc_val(self.b) } }
 impl Sc {
-  /// IEEE finiteness; established only by an explicit run-time test
-  pub uninterp spec fn fin(&self) -> bool;
+  pub open spec fn fin(&self) -> bool { sc_fin(self.b) }
+  /// statistics/numeric_traits CastF64::ZERO / ::ONE (`Model::ScalarType::ZERO` after rule X1)
+  pub const ZERO: Sc = Sc { b: 0 };
+  pub const ONE: Sc = Sc { b: 1 };
+  /// num_traits::Float::is_finite
+  #[verifier::external_body]
+  pub fn is_finite(self) -> (r: bool) ensures r == self.fin() { unimplemented!() }
 }
-impl Clone for Sc { #[verifier::external_body] fn clone(&self) -> (r: Self) ensures r@ == self@, r.fin() == self.fin() { unimplemented!() } }
+#[verifier::external_body]
+pub broadcast proof fn axiom_sc_consts()
+  ensures #[trigger] sc_val(0) == 0real, sc_fin(0), #[trigger] sc_val(1) == 1real, sc_fin(1) {}
+impl Clone for Sc { #[verifier::external_body] fn clone(&self) -> (r: Self) ensures r == *self { unimplemented!() } }
 impl Copy for Sc {}
+// comparisons: IEEE semantics on finite values is the order of the reals; with a NaN every comparison is false
+impl vstd::std_specs::cmp::PartialEqSpecImpl for Sc {
+  open spec fn obeys_eq_spec() -> bool { false }
+  open spec fn eq_spec(&self, other: &Sc) -> bool { self@ == other@ }
+}
+impl PartialEq for Sc { #[verifier::external_body] fn eq(&self, other: &Sc) -> (r: bool) { unimplemented!() } }
+impl vstd::std_specs::cmp::PartialOrdSpecImpl for Sc {
+  open spec fn obeys_partial_cmp_spec() -> bool { false }
+  open spec fn partial_cmp_spec(&self, other: &Sc) -> Option<core::cmp::Ordering> { arbitrary() }
+}
+impl PartialOrd for Sc {
+  #[verifier::external_body] fn partial_cmp(&self, other: &Sc) -> (r: Option<core::cmp::Ordering>) { unimplemented!() }
+  #[verifier::external_body] fn lt(&self, other: &Sc) -> (r: bool)
+    ensures r ==> self@ < other@, (self.fin() && other.fin()) ==> r == (self@ < other@) { unimplemented!() }
+  #[verifier::external_body] fn gt(&self, other: &Sc) -> (r: bool)
+    ensures r ==> self@ > other@, (self.fin() && other.fin()) ==> r == (self@ > other@) { unimplemented!() }
+  #[verifier::external_body] fn le(&self, other: &Sc) -> (r: bool)
+    ensures r ==> self@ <= other@, (self.fin() && other.fin()) ==> r == (self@ <= other@) { unimplemented!() }
+  #[verifier::external_body] fn ge(&self, other: &Sc) -> (r: bool)
+    ensures r ==> self@ >= other@, (self.fin() && other.fin()) ==> r == (self@ >= other@) { unimplemented!() }
+}
 
 /// machine epsilon of the scalar type (num_traits::Float::epsilon)
 pub uninterp spec fn EPS() -> real;
@@ -73,6 +105,63 @@ sc_binop!(Mul, MulSpecImpl, mul, obeys_mul_spec, mul_req, mul_spec, ens_mul);
 sc_binop!(Add, AddSpecImpl, add, obeys_add_spec, add_req, add_spec, ens_add);
 sc_binop!(Sub, SubSpecImpl, sub, obeys_sub_spec, sub_req, sub_spec, ens_sub);
 sc_binop!(Div, DivSpecImpl, div, obeys_div_spec, div_req, div_spec, ens_div);
+
+
+// =============================================================================== f64 (confidence_band_radius)
+/// the primitive f64 of `confidence_band_radius` (rule X1: `f64` -> `F64`; a float literal `L` -> `__vp_flit(num, den)`)
+pub struct F64 { pub b: u64 }
+pub uninterp spec fn f64_val(b: u64) -> real;
+impl View for F64 { type V = real; open spec fn view(&self) -> real { f64_val(self.b) } }
+impl Clone for F64 { #[verifier::external_body] fn clone(&self) -> (r: Self) ensures r == *self { unimplemented!() } }
+impl Copy for F64 {}
+#[verifier::external_body]
+pub fn __vp_flit(num: u64, den: u64) -> (r: F64) requires den > 0 ensures r@ == (num as real) / (den as real) { unimplemented!() }
+impl F64 {
+  /// num_traits::FromPrimitive for f64: `n as f64`, always Some
+  #[verifier::external_body]
+  pub fn from_usize(n: usize) -> (r: Option<F64>) ensures r matches Some(v) && v@ == n as real { unimplemented!() }
+}
+macro_rules! f64_binop {
+  ($Tr:ident, $SpecTr:ident, $m:ident, $obeys:ident, $req:ident, $spec:ident, $ens:expr) => {
+    verus! {
+    impl vstd::std_specs::ops::$SpecTr<F64> for F64 {
+      open spec fn $obeys() -> bool { false }
+      open spec fn $req(self, rhs: F64) -> bool { true }
+      open spec fn $spec(self, rhs: F64) -> F64 { arbitrary() }
+    }
+    impl core::ops::$Tr<F64> for F64 { type Output = F64;
+      #[verifier::external_body] fn $m(self, rhs: F64) -> (r: F64) ensures $ens(self@, rhs@, r@) { unimplemented!() } }
+    }
+  };
+}
+f64_binop!(Mul, MulSpecImpl, mul, obeys_mul_spec, mul_req, mul_spec, ens_mul);
+f64_binop!(Add, AddSpecImpl, add, obeys_add_spec, add_req, add_spec, ens_add);
+f64_binop!(Div, DivSpecImpl, div, obeys_div_spec, div_req, div_spec, ens_div);
+/// statistics/numeric_traits CastF64 (f32 <-> f64 casts are the identity on the reals)
+pub trait CastF64: Sized {
+  spec fn cv(&self) -> real;
+  fn from_f64(value: F64) -> (r: Self) ensures r.cv() == value@;
+  fn into_f64(self) -> (r: F64) ensures r@ == self.cv();
+}
+impl CastF64 for Sc {
+  open spec fn cv(&self) -> real { self@ }
+  #[verifier::external_body] fn from_f64(value: F64) -> (r: Self) { unimplemented!() }
+  #[verifier::external_body] fn into_f64(self) -> (r: F64) { unimplemented!() }
+}
+/// Student-t quantile (distrs 0.2.3 StudentsT::ppf): uninterpreted, with the three facts C14 uses
+pub uninterp spec fn t_ppf(q: real, nu: real) -> real;
+#[verifier::external_body]
+pub proof fn axiom_t_ppf(q1: real, q2: real, nu: real)
+  requires 0real < q1 <= q2 < 1real, nu >= 1real
+  ensures t_ppf(q1, nu) <= t_ppf(q2, nu), q1 * 2real >= 1real ==> t_ppf(q1, nu) >= 0real {}
+pub mod distrs {
+  use super::*;
+  pub struct StudentsT;
+  impl StudentsT {
+    #[verifier::external_body]
+    pub fn ppf(q: F64, v: F64) -> (r: F64) ensures r@ == t_ppf(q@, v@) { unimplemented!() }
+  }
+}
 
 // =============================================================================== dimensions
 /// nalgebra::Dim, restricted to value()/from_usize(); `Dyn(e)` is rewritten to `e` (rule X1)
@@ -202,6 +291,79 @@ impl ColMut {
             forall |i: int| 0 <= i < old(self)@.len() ==> #[trigger] final(self)@[i] == rhs@.e[0][i] * old(self)@[i]
   { unimplemented!() }
 }
+
+impl DMatrix {
+  /// nalgebra diagonal(): asserts square; the diagonal as a column vector
+  #[verifier::external_body]
+  pub fn diagonal(&self) -> (d: DMatrix)
+    requires self.ok(), self@.r == self@.c
+    ensures d.ok(), d@ == mat_new(self@.r, 1, |i: int, j: int| self@.get(i, i)) { unimplemented!() }
+  /// nalgebra try_inverse (linalg/inverse.rs): asserts square; Some(B) => A B = B A = I (float rounding not modelled)
+  #[verifier::external_body]
+  pub fn try_inverse(self) -> (r: Option<DMatrix>)
+    requires self.ok(), self@.r == self@.c
+    ensures r matches Some(b) ==> b.ok() && b@.wf() && b@.r == self@.r && b@.c == self@.c
+              && mmul(self@, b@) == ident(self@.r) && mmul(b@, self@) == ident(self@.r) { unimplemented!() }
+  #[verifier::external_body]
+  pub fn norm_squared(&self) -> (r: Sc) requires self.ok() ensures r@ == frob2(self@) { unimplemented!() }
+  /// nalgebra dot: asserts equal shapes; column vectors here
+  #[verifier::external_body]
+  pub fn dot(&self, rhs: &DMatrix) -> (r: Sc)
+    requires self.ok(), rhs.ok(), self@.c == 1, rhs@.c == 1, self@.r == rhs@.r
+    ensures r@ == dot(self@, rhs@) { unimplemented!() }
+  #[verifier::external_body]
+  pub fn row(&self, i: usize) -> (v: MView) requires self.ok(), i < self@.r ensures v@ == row_m(self@, i as int) { unimplemented!() }
+  #[verifier::external_body]
+  pub fn from_element(r: usize, c: usize, v: Sc) -> (m: DMatrix)
+    ensures m.ok(), m@ == mat_new(r as nat, c as nat, |i: int, j: int| v@) { unimplemented!() }
+  /// rule X4(d..f): element i of a column vector through `iter_mut()` / `iter()`
+  #[verifier::external_body]
+  pub fn set_elem(&mut self, i: usize, v: Sc)
+    requires old(self).ok(), old(self)@.c == 1, i < old(self)@.r
+    ensures final(self).ok(), final(self)@.r == old(self)@.r, final(self)@.c == 1,
+            final(self)@.e == old(self)@.e.update(0, old(self)@.e[0].update(i as int, v@)) { unimplemented!() }
+  #[verifier::external_body]
+  pub fn get_elem(&self, i: usize) -> (v: Sc)
+    requires self.ok(), self@.c == 1, i < self@.r
+    ensures v@ == self@.e[0][i as int] { unimplemented!() }
+  /// rule X10: `M[(i, j)] = v`
+  #[verifier::external_body]
+  pub fn set(&mut self, i: usize, j: usize, v: Sc)
+    requires old(self).ok(), i < old(self)@.r, j < old(self)@.c
+    ensures final(self).ok(), final(self)@.r == old(self)@.r, final(self)@.c == old(self)@.c,
+            final(self)@.e == old(self)@.e.update(j as int, old(self)@.e[j as int].update(i as int, v@)) { unimplemented!() }
+  /// rule X10: `M.column_mut(j).copy_from(&v)` (nalgebra set_column is defined as exactly this; copy_from asserts the shape)
+  #[verifier::external_body]
+  pub fn set_column(&mut self, j: usize, v: &MView)
+    requires old(self).ok(), j < old(self)@.c, v@.c == 1, v@.r == old(self)@.r
+    ensures final(self).ok(), final(self)@.r == old(self)@.r, final(self)@.c == old(self)@.c,
+            final(self)@.e == old(self)@.e.update(j as int, v@.e[0]) { unimplemented!() }
+}
+impl MView {
+  #[verifier::external_body] pub fn nrows(&self) -> (n: usize) ensures n == self@.r { unimplemented!() }
+  #[verifier::external_body] pub fn ncols(&self) -> (n: usize) ensures n == self@.c { unimplemented!() }
+  #[verifier::external_body] pub fn transpose(&self) -> (m: DMatrix) ensures m@ == mtr(self@), m.ok() { unimplemented!() }
+  #[verifier::external_body]
+  pub fn column(&self, j: usize) -> (v: MView) requires j < self@.c ensures v@ == col(self@, j as int) { unimplemented!() }
+}
+/// nalgebra Index<(usize, usize)>: panics when out of bounds
+impl vstd::std_specs::core::IndexSpecImpl<(usize, usize)> for DMatrix {
+  open spec fn index_req(&self, index: &(usize, usize)) -> bool { self.ok() && index.0 < self@.r && index.1 < self@.c }
+}
+impl core::ops::Index<(usize, usize)> for DMatrix { type Output = Sc;
+  #[verifier::external_body] fn index(&self, index: (usize, usize)) -> (r: &Sc) ensures r@ == self@.get(index.0 as int, index.1 as int) { unimplemented!() } }
+/// matrix * scalar
+impl vstd::std_specs::ops::MulSpecImpl<Sc> for DMatrix {
+  open spec fn obeys_mul_spec() -> bool { false }
+  open spec fn mul_req(self, rhs: Sc) -> bool { self.ok() }
+  open spec fn mul_spec(self, rhs: Sc) -> DMatrix { arbitrary() }
+}
+impl core::ops::Mul<Sc> for DMatrix { type Output = DMatrix;
+  #[verifier::external_body] fn mul(self, rhs: Sc) -> (r: DMatrix) ensures r@ == scale(self@, rhs@), r.ok() { unimplemented!() } }
+/// num_traits::Zero::zero
+pub trait Zero: Sized { spec fn zv(&self) -> real; fn zero() -> (r: Self) ensures r.zv() == 0real; }
+impl Zero for Sc { open spec fn zv(&self) -> real { self@ } #[verifier::external_body] fn zero() -> (r: Self) { unimplemented!() } }
+
 #[verifier::external_body]
 pub fn __vp_ok_unit<E>() -> (r: Result<(), E>) ensures r.is_ok() { unimplemented!() }
 pub fn __vp_succ(k: usize) -> (r: usize) requires k < usize::MAX ensures r == k + 1 { k + 1 }
@@ -298,6 +460,8 @@ pub assume_specification<T, U> [core::option::Option::<T>::zip] (a: Option<T>, b
   where T: core::marker::Destruct, U: core::marker::Destruct
   ensures r == (match (a, b) { (Some(x), Some(y)) => Some((x, y)), _ => None });
 
+/// core's reflexive `impl<T> From<T> for T` is the identity (used by `?` when no conversion is needed)
+pub assume_specification<T> [<T as core::convert::From<T>>::from] (t: T) -> (r: T) ensures r == t;
 pub assume_specification<T, P: FnOnce(&T) -> bool> [core::option::Option::<T>::filter] (a: Option<T>, predicate: P) -> (r: Option<T>)
   where T: core::marker::Destruct, P: core::marker::Destruct
   requires a matches Some(x) ==> predicate.requires((&x,)),
@@ -322,7 +486,8 @@ pub trait SeparableNonlinearModel: Sized {
   spec fn g_accepts(&self, p: MatR) -> bool;
   spec fn g_eval_ok(&self, al: MatR) -> bool;
   spec fn g_deriv_ok(&self, al: MatR, k: int) -> bool;
-  proof fn g_counts(&self) requires self.g_inv() ensures self.g_nbasis() >= 1, self.g_nparams() >= 1;
+  /// counts are positive and fit the address space (an N x M and an N x P matrix are allocated for them)
+  proof fn g_counts(&self) requires self.g_inv() ensures self.g_nbasis() >= 1, self.g_nparams() >= 1, self.g_nbasis() + self.g_nparams() <= usize::MAX;
 
   fn parameter_count(&self) -> (n: usize) requires self.g_inv() ensures n == self.g_nparams();
   fn base_function_count(&self) -> (n: usize) requires self.g_inv() ensures n == self.g_nbasis();
